@@ -288,9 +288,15 @@ func main() {
 		}
 		runFVR(q, th, votes, model)
 		// the same through Threshold.VoteResult
+		// (the required count is recomputed here exactly, independently of Threshold.Threshold)
 		rr, key := t.VoteResult(q, facts(votes))
-		want, ok := oracle(q, th, votes)
+		exactTh := uint((uint64(q)*uint64(tenths) + 999) / 1000)
+		want, ok := oracle(q, exactTh, votes)
 		res.Count(fmt.Sprintf("tvr/%d/%d/%v", q, tenths, votes), nv > 0)
+		if model {
+			cases.Add("inl "+vh.Tuple(vh.ZU(uint64(q)), vh.ZU(uint64(exactTh)), zlist(votes), vh.Z(int64(code(rr))), vh.Z(keyID(key))),
+				map[string]any{"kind": "tvr", "q": q, "t": t.String(), "votes": votes, "impl": []any{string(rr), key}})
+		}
 		if code(rr) != want || !ok(key) {
 			res.Fail("tally-result", fmt.Sprintf("Threshold(%v).VoteResult(%d,%v)=(%s,%q) want code %d", t, q, votes, rr, key, want),
 				replay{Kind: "tvr", Q: q, Th: th, T: t.String(), Votes: votes})
@@ -317,6 +323,31 @@ func main() {
 		runFM(q, th, sh, model)
 		if r.Chance(1, 4) { // raw threshold argument, possibly above the quorum or 0
 			runFM(q, uint(r.Range(0, int(q)+3)), sh, model)
+		}
+	}
+	// Threshold.VoteResult at the exact boundary: required-1 and required votes for one fact, rest missing
+	for q := 1; q <= o.Pick(160, 600); q++ {
+		for tenths := 510; tenths <= 1000; tenths += 1 {
+			if !o.Thorough() && (q*tenths)%7 != 0 && (q*tenths)%1000 != 0 {
+				continue
+			}
+			var t base.Threshold
+			_ = t.UnmarshalText([]byte(fmt.Sprintf("%d.%d", tenths/10, tenths%10)))
+			exactTh := (q*tenths + 999) / 1000
+			for _, nv := range []int{exactTh - 1, exactTh} {
+				if nv < 0 {
+					continue
+				}
+				votes := make([]int, nv)
+				rr, key := t.VoteResult(uint(q), facts(votes))
+				want, ok := oracle(uint(q), uint(exactTh), votes)
+				res.Count(fmt.Sprintf("tvrb/%d/%d/%d", q, tenths, nv), nv > 0)
+				res.Dist("tvr_boundary")
+				if code(rr) != want || !ok(key) {
+					res.Fail("tally-result", fmt.Sprintf("Threshold(%v).VoteResult(%d, %d votes for one fact)=(%s,%q) want code %d", t, q, nv, rr, key, want),
+						replay{Kind: "tvr", Q: uint(q), Th: uint(exactTh), T: t.String(), Votes: votes})
+				}
+			}
 		}
 	}
 	res.ModelCases = cases.Len()
